@@ -23,6 +23,14 @@ REPO_GROUPS = {
 }
 
 
+# feature sets with which the crate's own lib test target compiles (needed by `cargo kani playback` for in-crate harnesses)
+REPO_GROUP_TEST_FEATURES = {
+    "repo_zonetree": ["bytes", "unstable-zonetree", "zonefile", "serde"],
+    "repo_client": ["bytes", "unstable-client-transport", "zonefile"],
+    "repo_zonefile": ["bytes", "zonefile", "serde"],
+}
+
+
 def prepare(group):
     if group in REPO_GROUPS:
         return REPO
@@ -171,28 +179,38 @@ def extract_playback_tests(raw):
 
 def native_playback(group, tests, timeout=1800):
     """Re-execute Kani's concrete values natively against the real crate (cargo kani playback)."""
-    if group in REPO_GROUPS:
-        return {"ran": False, "failed_natively": False, "panics": [], "note": "in-crate harness: native playback not wired"}
     d = prepare(group)
-    lib = open(os.path.join(d, "src", "lib.rs")).read()
-    mods = [m for m in re.findall(r"^\s*(?:pub )?mod (\w+);", lib, re.M) if m != "playback_gen"]
-    pg = os.path.join(d, "src", "playback_gen.rs")
-    src = "#![allow(unused_imports)]\n" + "".join(f"use crate::{m}::*;\n" for m in mods)
-    src += "\n".join(t["code"] for t in tests)
     env = dict(os.environ)
     env["CARGO_NET_OFFLINE"] = "true"
-    env["CARGO_TARGET_DIR"] = os.path.join(BUILD, "kani-" + group + "-pb")
     env["RUST_BACKTRACE"] = "0"
+    if group in REPO_GROUPS:
+        # in-crate harnesses: the generated tests are included by the harness file itself (same module as the harness),
+        # the crate's own test target is built with the feature set below and only the playback tests are run
+        pg = os.path.join(VERIF, "kani", "incrate", "gen", group + ".rs")
+        placeholder = "// generated at run time by khlib.native_playback (concrete playback tests of a failed harness); empty otherwise\n"
+        src = ("#[allow(unused_imports)]\nmod playback_gen {\n    use super::*;\n    use std::vec;\n    use std::vec::Vec;\n"
+               + "\n".join(t["code"] for t in tests) + "\n}\n")
+        env["CARGO_TARGET_DIR"] = os.path.join(BUILD, "kani-repo-pb")
+        cmd = ["cargo", "kani", "playback", "-Z", "concrete-playback", "--features", ",".join(REPO_GROUP_TEST_FEATURES[group]),
+               "--lib", "--", "kani_concrete_playback"]
+    else:
+        lib = open(os.path.join(d, "src", "lib.rs")).read()
+        mods = [m for m in re.findall(r"^\s*(?:pub )?mod (\w+);", lib, re.M) if m != "playback_gen"]
+        pg = os.path.join(d, "src", "playback_gen.rs")
+        placeholder = "// generated at run time by khlib.native_playback\n"
+        src = "#![allow(unused_imports)]\n" + "".join(f"use crate::{m}::*;\n" for m in mods)
+        src += "\n".join(t["code"] for t in tests)
+        env["CARGO_TARGET_DIR"] = os.path.join(BUILD, "kani-" + group + "-pb")
+        cmd = ["cargo", "kani", "playback", "-Z", "concrete-playback", "--", "kani_concrete_playback"]
     try:
         open(pg, "w").write(src)
-        p = subprocess.run(["cargo", "kani", "playback", "-Z", "concrete-playback", "--", "kani_concrete_playback"],
-                           cwd=d, env=env, capture_output=True, text=True, timeout=timeout)
+        p = subprocess.run(cmd, cwd=d, env=env, capture_output=True, text=True, timeout=timeout)
         out = p.stdout + "\n" + p.stderr
     except subprocess.TimeoutExpired:
         out = "timeout (the replayed input does not terminate within the limit)"
         p = None
     finally:
-        open(pg, "w").write("// generated at run time by khlib.native_playback\n")
+        open(pg, "w").write(placeholder)
     res = {"ran": False, "failed_natively": False, "panics": []}
     m = re.search(r"test result: (\w+)\. (\d+) passed; (\d+) failed", out)
     if m:
